@@ -453,5 +453,9 @@ func NewCSMS(endpoint *ocppj.Server, server ws.Server) CSMS {
 	cs.server.SetCanceledRequestHandler(func(clientID string, requestID string, request ocpp.Request, err *ocpp.Error) {
 		cs.handleCanceledRequest(clientID, request, err)
 	})
+	// Pending callbacks of a disconnected client are canceled even if no disconnection handler is set by the application
+	cs.server.SetDisconnectedClientHandler(func(chargingStation ws.Channel) {
+		cs.cancelPendingCallbacks(chargingStation.ID())
+	})
 	return &cs
 }
